@@ -308,7 +308,21 @@ func (lk *Link) Expected(g *Graph) string {
 			panic("c15 model: recursion in a generated program")
 		}
 		defer func() { depth-- }()
+		// the function's own variables named like globals (Graph.Shadow): what the function itself
+		// reads under such a name while the variable exists is the variable; nobody else ever sees it
+		form := g.shadowForm(fn)
+		local := map[string]string{}
+		if form != "" {
+			for _, n := range lk.shadowNames(g, origin) {
+				local[n] = localText(origin, fn.Name, n)
+			}
+		}
 		for _, w := range lk.writes(g, origin, fn) {
+			if _, mine := local[w]; mine && form == "param" {
+				// a parameter exists from the start: the mark goes to it and the global stays as it is
+				local[w] += "'"
+				continue
+			}
 			b := lk.vis[origin][key(w, false)]
 			glob[b.Origin+"."+b.Item.Name] += "'"
 		}
@@ -317,6 +331,7 @@ func (lk *Link) Expected(g *Graph) string {
 			sing[origin+"."+s.Name] += origin + "." + fn.Name + ";"
 		}
 		var parts []string
+		var again []binding
 		for _, r := range lk.refs(g, origin, fn) {
 			switch r.Item.Kind {
 			case "fn", "cb":
@@ -342,10 +357,21 @@ func (lk *Link) Expected(g *Graph) string {
 				}
 				parts = append(parts, text)
 			case "let":
+				if text, mine := local[r.Item.Name]; mine {
+					parts = append(parts, text)
+					if form == "block" {
+						again = append(again, r)
+					}
+					continue
+				}
 				parts = append(parts, glob[r.Origin+"."+r.Item.Name])
 			case "type":
 				parts = append(parts, r.Item.Name+"@"+r.Origin)
 			}
+		}
+		// (form block: the block has ended, the names mean the globals again)
+		for _, r := range again {
+			parts = append(parts, glob[r.Origin+"."+r.Item.Name])
 		}
 		for _, s := range sings {
 			parts = append(parts, "["+sing[origin+"."+s.Name]+"]")
@@ -354,18 +380,33 @@ func (lk *Link) Expected(g *Graph) string {
 	}
 	var sb strings.Builder
 	entry := g.Mods[0].Name
+	mainItem := Item{Name: "main", Kind: "fn"}
+	mainForm := g.shadowForm(mainItem)
+	mainShadowed := map[string]bool{}
+	for _, n := range lk.shadowNames(g, entry) {
+		mainShadowed[n] = mainForm != ""
+	}
+	var again []binding
 	for _, b := range lk.mainPrints(g) {
 		sb.WriteString(b.Item.Name + "=")
 		if b.Item.Kind == "fn" {
-			text, threw := call(b.Origin, b.Item, lk.passes(g, entry, Item{Name: "main", Kind: "fn"}, b.Item, nil))
+			text, threw := call(b.Origin, b.Item, lk.passes(g, entry, mainItem, b.Item, nil))
 			if threw {
 				text = "!" + text
 			}
 			sb.WriteString(text)
+		} else if mainShadowed[b.Item.Name] {
+			sb.WriteString(localText(entry, "main", b.Item.Name))
+			if mainForm == "block" {
+				again = append(again, b)
+			}
 		} else {
 			sb.WriteString(glob[b.Origin+"."+b.Item.Name])
 		}
 		sb.WriteByte('\n')
+	}
+	for _, b := range again {
+		sb.WriteString(b.Item.Name + "=" + glob[b.Origin+"."+b.Item.Name] + "\n")
 	}
 	for _, s := range g.Mods[0].sings() {
 		sb.WriteString("$" + s.Name + "=" + sing[g.Mods[0].Name+"."+s.Name] + "\n")
